@@ -767,7 +767,7 @@ class Spectrum:
         """
         for unit in args:
 
-            if unit.lower() in ['m', 'um', 'nm', 'angstrom']:
+            if unit.lower() in ['m', 'meter', 'um', 'micron', 'nm', 'nanometer', 'angstrom']:
                 if self.valueunit in ['photlam', 'flam', 'wlam']:
                     # if the current valueunit are relative to waveunit, we
                     # need to convert to the requested waveunit and update the
